@@ -1125,3 +1125,655 @@ pub fn market_digest(m: &Market) -> u64 {
     m.is_closed().hash(&mut h);
     h.finish()
 }
+
+// =====================================================================================================
+// Flows: a user action driven from creation to close through the real instructions, every
+// instruction wrapped by a `Recorder` (which projects state before / after and writes the trace).
+
+/// One swap step reported by the program (`SwapExecuted` CPI event)
+#[derive(Clone, Debug)]
+pub struct HopEvent {
+    pub market_token: Pubkey,
+    pub is_token_in_long: bool,
+    pub amount_in: u128,
+    pub amount_out: u128,
+}
+
+/// decode the `SwapExecuted` events emitted (by event CPI) during an execution, in program order
+pub fn swap_events(r: &ExecResult) -> Vec<HopEvent> {
+    use anchor_lang::{AnchorDeserialize, Discriminator};
+    use gmsol_store::events::SwapExecuted;
+    let mut v = Vec::new();
+    for e in &r.events {
+        if e.program == gmsol_store::ID && e.discriminator[..] == SwapExecuted::DISCRIMINATOR[..] {
+            if let Ok(ev) = SwapExecuted::try_from_slice(&e.data) {
+                v.push(HopEvent {
+                    market_token: ev.market_token,
+                    is_token_in_long: ev.report.params().is_token_in_long(),
+                    amount_in: *ev.report.params().token_in_amount(),
+                    amount_out: *ev.report.token_out_amount(),
+                });
+            }
+        }
+    }
+    v
+}
+
+/// what a recorded instruction is about (for the trace)
+#[derive(Clone, Debug, Default)]
+pub struct Info {
+    /// instruction name: create_deposit, execute_deposit, close_deposit, ..., claim_fees, market_transfer_in
+    pub op: String,
+    /// market indices the instruction names (current market first, then the swap path markets)
+    pub touched: Vec<usize>,
+    /// "long" / "short" / "none"
+    pub side: String,
+    pub amt: u64,
+    /// declared swap paths (market indices) and token ends, for executions with swaps
+    pub path: Vec<usize>,
+    pub path2: Vec<usize>,
+    pub token_in: Option<usize>,
+    pub token_in2: Option<usize>,
+    pub token_out: Option<usize>,
+    pub token_out2: Option<usize>,
+    pub amt2: u64,
+    /// "from" (withdrawal: out of the current market), "into" (deposit), "order"
+    pub direction: String,
+    pub current: Option<usize>,
+    /// the action account an execute_* instruction executes (its state is logged after the instruction)
+    pub action: Option<Pubkey>,
+    /// the action's stored swap parameters were overwritten by the harness before this instruction
+    pub forged: bool,
+}
+
+pub trait Recorder {
+    fn exec(&mut self, w: &mut World, info: &Info, f: &mut dyn FnMut(&mut World) -> ExecResult) -> ExecResult;
+}
+
+/// a recorder that records nothing
+pub struct NoRec;
+impl Recorder for NoRec {
+    fn exec(&mut self, w: &mut World, _info: &Info, f: &mut dyn FnMut(&mut World) -> ExecResult) -> ExecResult {
+        f(w)
+    }
+}
+
+fn touched(current: usize, paths: &[&[usize]]) -> Vec<usize> {
+    let mut v = vec![current];
+    for p in paths {
+        for m in p.iter() {
+            if !v.contains(m) {
+                v.push(*m);
+            }
+        }
+    }
+    v
+}
+
+impl R2 {
+    /// time passes (1 s, 1 slot) and every feed publishes its nominal price
+    pub fn tick(&self, w: &mut World) {
+        w.advance_clock(1, 1);
+        self.refresh_prices(w);
+    }
+
+    /// create -> execute (keeper, throw_on_execution_error = false) -> close (owner) of a deposit.
+    /// Returns the action state after the execution (1 completed, 2 cancelled) if it got that far.
+    #[allow(clippy::too_many_arguments)]
+    pub fn flow_deposit(
+        &self,
+        w: &mut World,
+        rec: &mut dyn Recorder,
+        user: &Pubkey,
+        mi: usize,
+        nonce: &[u8; 32],
+        long_in: Option<(usize, u64)>,
+        short_in: Option<(usize, u64)>,
+        long_path: &[usize],
+        short_path: &[usize],
+        min: u64,
+    ) -> Option<u8> {
+        let m = self.mkts[mi].clone();
+        let mut info = Info {
+            op: "create_deposit".into(),
+            touched: touched(mi, &[long_path, short_path]),
+            side: "none".into(),
+            amt: long_in.map(|x| x.1).unwrap_or(0),
+            amt2: short_in.map(|x| x.1).unwrap_or(0),
+            path: long_path.to_vec(),
+            path2: short_path.to_vec(),
+            // a side without an initial token account defaults to the market's own token
+            token_in: long_in.map(|x| x.0).or(Some(m.long)),
+            token_in2: short_in.map(|x| x.0).or(Some(m.short)),
+            token_out: Some(m.long),
+            token_out2: Some(m.short),
+            direction: "into".into(),
+            current: Some(mi),
+            ..Default::default()
+        };
+        let r = rec.exec(w, &info, &mut |w: &mut World| self.create_deposit(w, user, &m, nonce, long_in, short_in, min, long_path, short_path, EXEC_LAMPORTS));
+        if !r.ok {
+            return None;
+        }
+        let d = self.deposit_pda(user, nonce);
+        self.tick(w);
+        info.op = "execute_deposit".into();
+        info.action = Some(d);
+        let keeper = self.keeper;
+        rec.exec(w, &info, &mut |w: &mut World| self.execute_deposit(w, &keeper, &d, false, EXEC_FEE));
+        let state = self.action_state(w, &d);
+        info.op = "close_deposit".into();
+        let (lt, stk) = (long_in.map(|x| self.toks[x.0].mint), short_in.map(|x| self.toks[x.0].mint));
+        rec.exec(w, &info, &mut |w: &mut World| self.close_deposit(w, user, user, &d, &m, lt, stk));
+        state
+    }
+
+    #[allow(clippy::too_many_arguments)]
+    pub fn flow_withdrawal(
+        &self,
+        w: &mut World,
+        rec: &mut dyn Recorder,
+        user: &Pubkey,
+        mi: usize,
+        nonce: &[u8; 32],
+        market_token_amount: u64,
+        final_long: usize,
+        final_short: usize,
+        long_path: &[usize],
+        short_path: &[usize],
+    ) -> Option<u8> {
+        let m = self.mkts[mi].clone();
+        let mut info = Info {
+            op: "create_withdrawal".into(),
+            touched: touched(mi, &[long_path, short_path]),
+            side: "none".into(),
+            amt: 0,
+            amt2: 0,
+            path: long_path.to_vec(),
+            path2: short_path.to_vec(),
+            token_in: Some(m.long),
+            token_in2: Some(m.short),
+            token_out: Some(final_long),
+            token_out2: Some(final_short),
+            direction: "from".into(),
+            current: Some(mi),
+            ..Default::default()
+        };
+        let r = rec.exec(w, &info, &mut |w: &mut World| {
+            self.create_withdrawal(w, user, &m, nonce, market_token_amount, final_long, final_short, 0, 0, long_path, short_path, EXEC_LAMPORTS)
+        });
+        if !r.ok {
+            return None;
+        }
+        let wd = self.withdrawal_pda(user, nonce);
+        self.tick(w);
+        info.op = "execute_withdrawal".into();
+        info.action = Some(wd);
+        let keeper = self.keeper;
+        rec.exec(w, &info, &mut |w: &mut World| self.execute_withdrawal(w, &keeper, &wd, false, EXEC_FEE));
+        let state = self.action_state(w, &wd);
+        info.op = "close_withdrawal".into();
+        let (fl, fs) = (self.toks[final_long].mint, self.toks[final_short].mint);
+        rec.exec(w, &info, &mut |w: &mut World| self.close_withdrawal(w, user, user, &wd, &m, fl, fs));
+        state
+    }
+
+    /// MarketSwap order along `path`; the order's market is the last market of the path.
+    #[allow(clippy::too_many_arguments)]
+    pub fn flow_swap(
+        &self,
+        w: &mut World,
+        rec: &mut dyn Recorder,
+        user: &Pubkey,
+        nonce: &[u8; 32],
+        token_in: usize,
+        token_out: usize,
+        amount: u64,
+        path: &[usize],
+        order_market: usize,
+    ) -> Option<u8> {
+        let m = self.mkts[order_market].clone();
+        let mut info = Info {
+            op: "create_order".into(),
+            touched: touched(order_market, &[path]),
+            side: "none".into(),
+            amt: amount,
+            path: path.to_vec(),
+            token_in: Some(token_in),
+            token_out: Some(token_out),
+            direction: "order".into(),
+            current: Some(order_market),
+            ..Default::default()
+        };
+        let r = rec.exec(w, &info, &mut |w: &mut World| self.create_swap_order(w, user, &m, nonce, token_in, token_out, amount, 0, path, EXEC_LAMPORTS));
+        if !r.ok {
+            return None;
+        }
+        let o = self.order_pda(user, nonce);
+        self.tick(w);
+        info.op = "execute_order".into();
+        info.action = Some(o);
+        let keeper = self.keeper;
+        rec.exec(w, &info, &mut |w: &mut World| self.execute_swap_order(w, &keeper, &o, false, EXEC_FEE));
+        let state = self.action_state(w, &o);
+        info.op = "close_order".into();
+        let (ti, to) = (self.toks[token_in].mint, self.toks[token_out].mint);
+        rec.exec(w, &info, &mut |w: &mut World| self.close_swap_order(w, user, user, &o, ti, to));
+        state
+    }
+
+    #[allow(clippy::too_many_arguments)]
+    pub fn flow_shift(&self, w: &mut World, rec: &mut dyn Recorder, user: &Pubkey, nonce: &[u8; 32], from: usize, to: usize, amount: u64) -> Option<u8> {
+        let (mf, mt) = (self.mkts[from].clone(), self.mkts[to].clone());
+        let mut info = Info { op: "create_shift".into(), touched: vec![from, to], side: "none".into(), amt: 0, current: Some(from), direction: "shift".into(), ..Default::default() };
+        let r = rec.exec(w, &info, &mut |w: &mut World| self.create_shift(w, user, &mf, &mt, nonce, amount, 0, EXEC_LAMPORTS));
+        if !r.ok {
+            return None;
+        }
+        let s = self.shift_pda(user, nonce);
+        self.tick(w);
+        info.op = "execute_shift".into();
+        info.action = Some(s);
+        let keeper = self.keeper;
+        rec.exec(w, &info, &mut |w: &mut World| self.execute_shift(w, &keeper, &s, false, EXEC_FEE));
+        let state = self.action_state(w, &s);
+        info.op = "close_shift".into();
+        rec.exec(w, &info, &mut |w: &mut World| self.close_shift(w, user, user, &s, &mf, &mt));
+        state
+    }
+
+    pub fn flow_claim_fees(&self, w: &mut World, rec: &mut dyn Recorder, mi: usize, side_long: bool) -> ExecResult {
+        let m = self.mkts[mi].clone();
+        let tok = self.toks[if side_long { m.long } else { m.short }].clone();
+        let admin = self.admin;
+        // the receiver's token account is created outside the recorded instruction
+        let _ = spl::create_ata(w, &admin, &admin, &tok.mint);
+        let info = Info { op: "claim_fees".into(), touched: vec![mi], side: if side_long { "long" } else { "short" }.into(), current: Some(mi), ..Default::default() };
+        rec.exec(w, &info, &mut |w: &mut World| self.claim_fees(w, &admin, &m, &tok))
+    }
+
+    pub fn flow_transfer_in(&self, w: &mut World, rec: &mut dyn Recorder, user: &Pubkey, mi: usize, side_long: bool, amount: u64) -> ExecResult {
+        let m = self.mkts[mi].clone();
+        let tok = self.toks[if side_long { m.long } else { m.short }].clone();
+        let info =
+            Info { op: "market_transfer_in".into(), touched: vec![mi], side: if side_long { "long" } else { "short" }.into(), amt: amount, current: Some(mi), ..Default::default() };
+        rec.exec(w, &info, &mut |w: &mut World| self.market_transfer_in(w, user, &m, &tok, amount))
+    }
+
+    /// somebody sends tokens straight to a vault (plain SPL transfer, not a store instruction)
+    pub fn flow_donate(&self, w: &mut World, rec: &mut dyn Recorder, user: &Pubkey, ti: usize, amount: u64) -> ExecResult {
+        let tok = self.toks[ti].clone();
+        let info = Info { op: "donate".into(), touched: vec![], side: "none".into(), amt: amount, ..Default::default() };
+        let from = spl::ata(user, &tok.mint);
+        let ix = spl_token::instruction::transfer(&spl_token::ID, &from, &tok.vault, user, &[], amount).unwrap();
+        rec.exec(w, &info, &mut |w: &mut World| w.execute(&ix, &[*user]))
+    }
+
+    /// Vaults state (specs/Vaults.tla) read back from the market accounts and the vault token accounts
+    pub fn vaults_state(&self, w: &World) -> serde_json::Value {
+        use gmsol_model::{Balance, PoolKind};
+        use serde_json::{json, Map, Value};
+        let n = |x: gmsol_model::Result<u128>| -> Value {
+            let v = x.unwrap_or(u128::MAX);
+            if v < (1u128 << 31) {
+                json!(v as u64)
+            } else {
+                json!(-1)
+            }
+        };
+        let (mut bal, mut liq, mut imp, mut fee, mut col) = (Map::new(), Map::new(), Map::new(), Map::new(), Map::new());
+        for m in &self.mkts {
+            let ms = self.market_state(w, m);
+            let pool = |k: PoolKind| ms.pool(k).expect("pool");
+            let two = |k: PoolKind| json!({"long": n(pool(k).long_amount()), "short": n(pool(k).short_amount())});
+            bal.insert(m.label.clone(), json!({"long": ms.state().long_token_balance_raw(), "short": ms.state().short_token_balance_raw()}));
+            liq.insert(m.label.clone(), two(PoolKind::Primary));
+            imp.insert(m.label.clone(), two(PoolKind::SwapImpact));
+            fee.insert(m.label.clone(), two(PoolKind::ClaimableFee));
+            let (cl, cs) = (pool(PoolKind::CollateralSumForLong), pool(PoolKind::CollateralSumForShort));
+            let add = |a: gmsol_model::Result<u128>, b: gmsol_model::Result<u128>| n(a.and_then(|a| b.map(|b| a + b)));
+            col.insert(m.label.clone(), json!({"long": add(cl.long_amount(), cs.long_amount()), "short": add(cl.short_amount(), cs.short_amount())}));
+        }
+        let mut vault = Map::new();
+        for t in self.toks.iter().filter(|t| !t.synthetic) {
+            vault.insert(t.label.clone(), json!(self.balance(w, &t.vault)));
+        }
+        json!({"bal": bal, "liq": liq, "imp": imp, "fee": fee, "col": col, "vault": vault})
+    }
+
+    /// [market -> [long, short]] token labels
+    pub fn meta_json(&self) -> serde_json::Value {
+        let mut m = serde_json::Map::new();
+        for k in &self.mkts {
+            m.insert(k.label.clone(), serde_json::json!({"long": self.toks[k.long].label, "short": self.toks[k.short].label}));
+        }
+        serde_json::Value::Object(m)
+    }
+
+    /// world R2 with swap fees and swap impact configured on the two-token markets and initial
+    /// liquidity in every market, provided by every user through real deposits
+    pub fn build_funded(w: &mut World, n_users: usize) -> R2 {
+        let r2 = R2::build(w, &DEFAULT_TOKS, &DEFAULT_MKTS, n_users, 100_000_000);
+        for m in r2.mkts.clone().iter().filter(|m| !m.is_pure()) {
+            for (k, v) in [
+                ("swap_fee_factor_for_positive_impact", 300_000_000_000_000_000u128),
+                ("swap_fee_factor_for_negative_impact", 500_000_000_000_000_000u128),
+                ("swap_impact_exponent", 200_000_000_000_000_000_000u128),
+                ("swap_impact_positive_factor", 10_000_000_000_000u128),
+                ("swap_impact_negative_factor", 20_000_000_000_000u128),
+            ] {
+                must("update_market_config", r2.update_market_config(w, m, k, v));
+            }
+        }
+        let mut n = 0u8;
+        for u in r2.users.clone() {
+            for (mi, m) in r2.mkts.clone().iter().enumerate() {
+                n += 1;
+                let mut nonce = [0u8; 32];
+                nonce[0] = 100 + n;
+                // about $20k per side
+                let per = |t: usize| 2_000_000u64 / r2.toks[t].price;
+                let (li, si) = if m.is_pure() { (Some((m.long, per(m.long))), None) } else { (Some((m.long, per(m.long))), Some((m.short, per(m.short)))) };
+                let st = r2.flow_deposit(w, &mut NoRec, &u, mi, &nonce, li, si, &[], &[], 0);
+                assert_eq!(st, Some(1), "initial liquidity deposit into {} must complete", m.label);
+            }
+        }
+        r2
+    }
+}
+
+// =====================================================================================================
+// Abstract operations (scripts printed by TLC / drawn at random) and the trace recorder shared by the
+// C22 and C44 drivers.
+
+#[derive(Clone, Debug, Default)]
+pub struct AbsOp {
+    /// deposit | withdraw | swap | swap2 | shift | claim | transfer_in | donate | deposit_path |
+    /// withdraw_path | swap_path | collateral_in | collateral_out (the last two: specification only)
+    pub op: String,
+    pub m: usize,
+    pub m2: usize,
+    pub side_long: bool,
+    pub a: u64,
+    pub user: usize,
+    pub path: Vec<usize>,
+    pub path2: Vec<usize>,
+    pub tok: usize,
+    pub tok_out: Option<usize>,
+}
+
+pub struct TraceRec<'a> {
+    pub r2: &'a R2,
+    pub sink: &'a mut crate::util::Sink,
+    pub reset: bool,
+    pub step: String,
+    pub instructions: usize,
+    pub ok_instructions: usize,
+    pub classes: std::collections::BTreeMap<String, usize>,
+    pub hops_seen: usize,
+}
+
+impl<'a> TraceRec<'a> {
+    pub fn new(r2: &'a R2, sink: &'a mut crate::util::Sink) -> Self {
+        TraceRec { r2, sink, reset: true, step: String::new(), instructions: 0, ok_instructions: 0, classes: Default::default(), hops_seen: 0 }
+    }
+}
+
+impl Recorder for TraceRec<'_> {
+    fn exec(&mut self, w: &mut World, info: &Info, f: &mut dyn FnMut(&mut World) -> ExecResult) -> ExecResult {
+        use serde_json::json;
+        let r2 = self.r2;
+        let pre = r2.vaults_state(w);
+        let r = f(w);
+        let post = r2.vaults_state(w);
+        let lab = |v: &Vec<usize>| v.iter().map(|i| r2.mkts[*i].label.clone()).collect::<Vec<_>>();
+        let tl = |t: Option<usize>| t.map(|i| r2.toks[i].label.clone()).unwrap_or_else(|| "none".into());
+        let hops: Vec<serde_json::Value> = swap_events(&r)
+            .iter()
+            .map(|h| {
+                let m = r2.mkt_by_token(&h.market_token);
+                let (ml, tin, tout) = match m {
+                    Some(m) => {
+                        let (i, o) = if h.is_token_in_long { (m.long, m.short) } else { (m.short, m.long) };
+                        (m.label.clone(), r2.toks[i].label.clone(), r2.toks[o].label.clone())
+                    }
+                    None => ("?".into(), "?".into(), "?".into()),
+                };
+                let small = |x: u128| if x < (1u128 << 31) { x as i64 } else { -1 };
+                json!({"m": ml, "tin": tin, "tout": tout, "ain": small(h.amount_in), "aout": small(h.amount_out)})
+            })
+            .collect();
+        self.instructions += 1;
+        if r.ok {
+            self.ok_instructions += 1;
+        }
+        self.hops_seen += hops.len();
+        *self.classes.entry(format!("{}/{}", info.op, r.label())).or_insert(0) += 1;
+        self.sink.emit(json!({
+            "op": info.op, "step": self.step, "side": info.side, "amt": info.amt, "amt2": info.amt2,
+            "ok": r.ok, "err": r.label(), "panic": r.panic, "reset": self.reset,
+            "meta": r2.meta_json(), "touched": lab(&info.touched),
+            "path": lab(&info.path), "path2": lab(&info.path2),
+            "tin": tl(info.token_in), "tin2": tl(info.token_in2), "tout": tl(info.token_out), "tout2": tl(info.token_out2),
+            "dir": info.direction, "current": info.current.map(|i| r2.mkts[i].label.clone()).unwrap_or_else(|| "none".into()),
+            "hops": hops, "pre": pre, "post": post,
+            "astate": match info.action.and_then(|a| r2.action_state(w, &a)) { Some(0) => "pending", Some(1) => "completed", Some(2) => "cancelled", Some(_) => "unknown", None => "none" },
+            "forged": info.forged,
+        }));
+        self.reset = false;
+        r
+    }
+}
+
+impl R2 {
+    /// units of token `t` worth `usd` dollars at the nominal price
+    pub fn units(&self, t: usize, usd: u64) -> u64 {
+        let tok = &self.toks[t];
+        usd * 10u64.pow(tok.decimals as u32) / tok.price
+    }
+
+    /// the token reached by walking `path` from `tok` (None when a step does not trade that token)
+    pub fn walk(&self, tok: usize, path: &[usize]) -> Option<usize> {
+        let mut cur = tok;
+        for mi in path {
+            let m = &self.mkts[*mi];
+            cur = if cur == m.long {
+                m.short
+            } else if cur == m.short {
+                m.long
+            } else {
+                return None;
+            };
+        }
+        Some(cur)
+    }
+
+    /// run one abstract operation through the real instructions; `ctr` numbers the action nonces
+    pub fn run_op(&self, w: &mut World, rec: &mut dyn Recorder, o: &AbsOp, ctr: &mut u64) {
+        *ctr += 1;
+        let mut nonce = [0u8; 32];
+        nonce[..8].copy_from_slice(&ctr.to_le_bytes());
+        nonce[31] = 7;
+        let user = self.users[o.user % self.users.len()];
+        let m = &self.mkts[o.m];
+        let side_tok = if o.side_long { m.long } else { m.short };
+        let usd = o.a * 500;
+        let mt_share = |w: &World, mi: usize| self.balance(w, &spl::ata(&user, &self.mkts[mi].market_token)) / 10 * o.a.min(5);
+        match o.op.as_str() {
+            "deposit" => {
+                let x = Some((side_tok, self.units(side_tok, usd)));
+                let (li, si) = if o.side_long || m.is_pure() { (x, None) } else { (None, x) };
+                self.flow_deposit(w, rec, &user, o.m, &nonce, li, si, &[], &[], 0);
+            }
+            "withdraw" => {
+                let amt = mt_share(w, o.m);
+                self.flow_withdrawal(w, rec, &user, o.m, &nonce, amt, m.long, m.short, &[], &[]);
+            }
+            "swap" => {
+                let out = if o.side_long { m.short } else { m.long };
+                self.flow_swap(w, rec, &user, &nonce, side_tok, out, self.units(side_tok, usd), &[o.m], o.m);
+            }
+            "swap2" => {
+                self.flow_swap(w, rec, &user, &nonce, side_tok, side_tok, self.units(side_tok, usd), &[o.m, o.m2], o.m2);
+            }
+            "shift" => {
+                let amt = mt_share(w, o.m);
+                self.flow_shift(w, rec, &user, &nonce, o.m, o.m2, amt);
+            }
+            "claim" => {
+                self.flow_claim_fees(w, rec, o.m, o.side_long);
+            }
+            "transfer_in" => {
+                self.flow_transfer_in(w, rec, &user, o.m, o.side_long, self.units(side_tok, usd));
+            }
+            "donate" => {
+                self.flow_donate(w, rec, &user, o.tok, self.units(o.tok, usd));
+            }
+            "deposit_path" => {
+                // `tok` is deposited for the chosen side through `path`
+                let x = Some((o.tok, self.units(o.tok, usd)));
+                if o.side_long {
+                    self.flow_deposit(w, rec, &user, o.m, &nonce, x, None, &o.path, &[], 0);
+                } else {
+                    self.flow_deposit(w, rec, &user, o.m, &nonce, None, x, &[], &o.path, 0);
+                }
+            }
+            "deposit_both" => {
+                let x = Some((o.tok, self.units(o.tok, usd)));
+                self.flow_deposit(w, rec, &user, o.m, &nonce, x, x, &o.path, &o.path2, 0);
+            }
+            "withdraw_path" => {
+                let amt = mt_share(w, o.m);
+                let fl = self.walk(m.long, &o.path).unwrap_or(m.long);
+                let fs = self.walk(m.short, &o.path2).unwrap_or(m.short);
+                self.flow_withdrawal(w, rec, &user, o.m, &nonce, amt, fl, fs, &o.path, &o.path2);
+            }
+            "swap_path" => {
+                let out = o.tok_out.or_else(|| self.walk(o.tok, &o.path)).unwrap_or(o.tok);
+                let om = o.path.last().copied().unwrap_or(o.m);
+                self.flow_swap(w, rec, &user, &nonce, o.tok, out, self.units(o.tok, usd), &o.path, if o.m2 == usize::MAX { om } else { o.m2 });
+            }
+            _ => {}
+        }
+    }
+}
+
+/// a random abstract operation over the default world (markets M1, M2, M3, MP; tokens A, B, C)
+pub fn random_op(r2: &R2, rng: &mut crate::util::Rng) -> AbsOp {
+    let mi = |r2: &R2, l: &str| r2.mkts.iter().position(|m| m.label == l).unwrap_or(0);
+    let nm = r2.mkts.len();
+    let two: Vec<usize> = (0..nm).filter(|i| !r2.mkts[*i].is_pure()).collect();
+    let m = rng.below(nm as u64) as usize;
+    let mut o = AbsOp { m, m2: usize::MAX, side_long: rng.chance(1, 2), a: 1 + rng.below(4), user: rng.below(2) as usize, ..Default::default() };
+    let (m1, m2, m3) = (mi(r2, "M1"), mi(r2, "M2"), mi(r2, "M3"));
+    let (ta, tb, tc) = (0usize, 1usize, 2usize);
+    match rng.below(14) {
+        0 | 1 => o.op = "deposit".into(),
+        2 => o.op = "withdraw".into(),
+        3 | 4 => {
+            o.op = "swap".into();
+            o.m = *rng.pick(&two);
+        }
+        5 => {
+            o.op = "swap2".into();
+            o.m = if rng.chance(1, 2) { m1 } else { m2 };
+            o.m2 = if o.m == m1 { m2 } else { m1 };
+        }
+        6 => {
+            o.op = "shift".into();
+            o.m = if rng.chance(1, 2) { m1 } else { m2 };
+            o.m2 = if o.m == m1 { m2 } else { m1 };
+        }
+        7 => {
+            o.op = "claim".into();
+        }
+        8 => o.op = "transfer_in".into(),
+        9 => {
+            o.op = "donate".into();
+            o.tok = rng.below(3) as usize;
+        }
+        10 => {
+            // deposit C into M1 / M2: long side via [M3, Mx], short side via [M3]
+            o.op = "deposit_path".into();
+            o.m = if rng.chance(1, 2) { m1 } else { m2 };
+            let other = if o.m == m1 { m2 } else { m1 };
+            o.tok = tc;
+            o.path = if o.side_long { vec![m3, other] } else { vec![m3] };
+        }
+        11 => {
+            // withdraw from M1 / M2 with the long side swapped to C and / or the short side to A
+            o.op = "withdraw_path".into();
+            o.m = if rng.chance(1, 2) { m1 } else { m2 };
+            let other = if o.m == m1 { m2 } else { m1 };
+            if rng.chance(1, 2) {
+                o.path = vec![other, m3];
+            }
+            if rng.chance(1, 2) {
+                o.path2 = vec![other];
+            }
+        }
+        12 => {
+            // three hops C -> B -> A -> B, or two hops A -> B -> C
+            o.op = "swap_path".into();
+            if rng.chance(1, 2) {
+                o.tok = tc;
+                o.path = vec![m3, m1, m2];
+            } else {
+                o.tok = ta;
+                o.path = vec![if rng.chance(1, 2) { m1 } else { m2 }, m3];
+            }
+        }
+        _ => {
+            // deposit A on both sides of M3 (C/B): long via [Mx (A->B), M3 (B->C)], short via [My (A->B)]
+            o.op = "deposit_both".into();
+            o.m = m3;
+            o.tok = ta;
+            o.path = vec![m1, m3];
+            o.path2 = vec![m2];
+            let _ = tb;
+        }
+    }
+    o
+}
+
+
+impl TraceRec<'_> {
+    /// a direct call (no instruction): same keys as an instruction event, state unchanged
+    pub fn emit_direct(&mut self, w: &World, op: &str, path: &[String], path2: &[String], ok: bool, err: &str) {
+        use serde_json::json;
+        let st = self.r2.vaults_state(w);
+        let none: Vec<String> = Vec::new();
+        self.sink.emit(json!({
+            "op": op, "step": "direct", "side": "none", "amt": 0, "amt2": 0,
+            "ok": ok, "err": err, "panic": false, "reset": true,
+            "meta": self.r2.meta_json(), "touched": none,
+            "path": path, "path2": path2,
+            "tin": "none", "tin2": "none", "tout": "none", "tout2": "none",
+            "dir": "direct", "current": "none",
+            "hops": Vec::<serde_json::Value>::new(), "pre": st.clone(), "post": st,
+            "astate": "none", "forged": false,
+        }));
+        *self.classes.entry(format!("{op}/{err}")).or_insert(0) += 1;
+    }
+}
+
+impl R2 {
+    /// Harness-side fabrication: overwrite the swap paths stored in an action account (the byte image
+    /// of its current `SwapActionParams` is located in the account data and replaced). Token list and
+    /// current market token are kept. Returns false when the image is not found.
+    pub fn forge_swap_path(&self, w: &mut World, action: &Pubkey, old: &gmsol_utils::swap::SwapActionParams, primary: &[usize], secondary: &[usize]) -> bool {
+        let Some(acc) = w.account(action).cloned() else { return false };
+        let image = bytemuck::bytes_of(old);
+        let Some(pos) = acc.data.windows(image.len()).position(|win| win == image) else { return false };
+        let mut new = *old;
+        new.primary_length = primary.len() as u8;
+        new.secondary_length = secondary.len() as u8;
+        for (i, m) in primary.iter().chain(secondary.iter()).enumerate() {
+            new.paths[i] = self.mkts[*m].market_token;
+        }
+        let mut acc = acc;
+        acc.data[pos..pos + image.len()].copy_from_slice(bytemuck::bytes_of(&new));
+        w.set_account(*action, acc);
+        true
+    }
+}
